@@ -87,6 +87,9 @@ P_Resample(sa, da, w, h, src, dst0, dx, dy) ==
 P_Fill(va, da, val, dst0) == IF Compat(va, da) THEN Outcome("none", ConstPx(Len(dst0), val), "none")
                              ELSE Outcome("bad_cast", dst0, "none")
 \* the harness functor: n-th visited pixel (row-major, 1-based) gets semantic channel 0 := n; returns the count
+\* bytes between two row starts of an image of alternative alt, w pixels wide, created with row alignment al (0 / 1: none)
+P_RowBytes(alt, w, al) == LET raw == IF alt.planar THEN w * (alt.bits \div 8) ELSE w * NChOf(alt.space) * (alt.bits \div 8)
+                          IN IF al > 1 THEN Align(raw, al) ELSE raw
 P_ForEach(dst0) == Outcome("none", [i \in 1..Len(dst0) |-> [dst0[i] EXCEPT ![1] = i]], ToString(Len(dst0)))
 
 -----------------------------------------------------------------------------
@@ -205,7 +208,7 @@ AllOps(s) ==
     \cup {Op("CopyCtor", a, b, 0, 0, 0, 0, 0, 0) : a \in IV, b \in IV}
     \cup {Op("Assign", a, b, 0, 0, 0, 0, 0, 0) : a \in IV, b \in IV}
     \cup {Op("AssignT", a, 0, t, d[1], d[2], k, 0, 0) : a \in IV, t \in Tags, d \in DimSet, k \in Vals}
-    \cup {Op("Recreate", a, 0, 0, d[1], d[2], k, 0, 0) : a \in IV, d \in DimSet, k \in Vals}
+    \cup {Op("Recreate", a, 0, 0, d[1], d[2], k, al, 0) : a \in IV, d \in DimSet, k \in Vals, al \in {0, 16}}     \* x = row alignment
     \cup {Op("Destroy", a, 0, 0, 0, 0, 0, 0, 0) : a \in IV}
     \cup {Op("ViewOf", a, b, 0, 0, 0, 0, 0, 0) : a \in VV, b \in IV}
     \cup UNION {{Op("SubView", a, b, 0, w, h, 0, x, y) : w \in 0..(s.view[b].w - x), h \in 0..(s.view[b].h - y)}
